@@ -447,8 +447,52 @@ def malformed(rng):
     yield case_line('pz.raw', 0, [None] * 11 + [('some', 7)] + [None] * 9)
 
 
+ZONES = [(7200, 3600), (3600, 7200), (0, 3600), (3600, 0), (-18000, -14400), (-14400, -18000), (19800, 20700),
+         (34200, 37800), (-3600, 16200), (45900, 49500), (0, 0), (86399, -86399), (-86399, 86399), (1, -1)]
+ZONE_TS = [1635642000, 1616893200, 0, -1, 86400 * 365, -2208988800, 4102444800, TS_MIN + 90000, TS_MAX - 90000]
+
+
+def zone_cases(tier, rng):
+    """to_datetime_with_timezone on a zone with one transition: wall clocks before, inside and after the
+    repeated / skipped interval, with the offset field naming either candidate, neither, or absent, and
+    the timestamp field of either candidate"""
+    n = 1 if tier == 'quick' else 6
+    for t in ZONE_TS + [rng.randint(-4 * 10**9, 4 * 10**9) for _ in range(6 * n)]:
+        for (a, b) in ZONES:
+            lo, hi = t + min(a, b), t + max(a, b)
+            ws = {lo - 2, lo - 1, lo, lo + 1, (lo + hi) // 2, hi - 1, hi, hi + 1, hi + 3600, lo - 86400}
+            ws |= {rng.randint(lo - 5, hi + 5) for _ in range(2 * n)}
+            for w in sorted(ws):
+                dn = EPOCH_DN + w // 86400
+                if not (DN_MIN + 2 <= dn <= DN_MAX - 2):
+                    continue
+                y, o = yo_of_dn(dn)
+                sod = w % 86400
+                base = [None] * 21
+                base[0], base[12] = y, o
+                base[14], base[15], base[16], base[17] = sod // 43200, (sod // 3600) % 12, (sod // 60) % 60, sod % 60
+                for off in (None, a, b, a + 1, 0):
+                    for ts in (None, w - a, w - b):
+                        if ts is not None and rng.random() < 0.5:
+                            continue
+                        st = list(base)
+                        st[20] = off
+                        st[19] = ts
+                        if rng.random() < 0.2:
+                            st[18] = rng.choice([0, 1, 999999999])
+                        if rng.random() < 0.1:
+                            st[17] = None          # second absent (defaults to 0)
+                        if ts is not None and rng.random() < 0.3:
+                            st[0] = st[12] = st[14] = st[15] = st[16] = st[17] = None    # timestamp only
+                        yield case_line('pz.zone', raw_state(st), t, a, b)
+    yield case_line('pz.zone', raw_state([None] * 21), 0, 86400, 0)     # bad zone: BADARGS on both sides
+    yield case_line('pz.zone', raw_state([None] * 21), 2**63, 0, 0)
+
+
 def cases(tier, rng):
     for c in structured(tier, rng):
+        yield c
+    for c in zone_cases(tier, rng):
         yield c
     for c in malformed(rng):
         yield c
